@@ -86,51 +86,286 @@ Proof.
   - rewrite Nat.min_r by lia. rewrite !firstn_all2 by lia. reflexivity.
 Qed.
 
-Section Max.
+
+
+(* ---------- generic list surgery ---------- *)
+Lemma pre_len_le l a b : a <= b -> pre_len l a <= pre_len l b.
+Proof.
+  intros H. unfold pre_len. revert a b H. induction l as [|s l IH]; intros a b H.
+  - rewrite !firstn_nil. simpl. lia.
+  - destruct a, b; simpl; try lia. rewrite !app_length. specialize (IH a b). lia.
+Qed.
+
+Lemma pre_len_all l a : length l <= a -> pre_len l a = length (flat_map sbytes l).
+Proof. intros H. unfold pre_len. rewrite firstn_all2 by lia. reflexivity. Qed.
+
+Lemma firstn_content l a : firstn (pre_len l a) (flat_map sbytes l) = flat_map sbytes (firstn a l).
+Proof.
+  unfold pre_len. revert a. induction l as [|s l IH]; intros a.
+  - rewrite !firstn_nil. reflexivity.
+  - destruct a; simpl; [reflexivity|].
+    rewrite app_length. rewrite firstn_app. rewrite firstn_all2 by lia.
+    replace (length (sbytes s) + length (flat_map sbytes (firstn a l)) - length (sbytes s))
+      with (length (flat_map sbytes (firstn a l))) by lia.
+    rewrite IH. reflexivity.
+Qed.
+
+Lemma skipn_content l a : skipn (pre_len l a) (flat_map sbytes l) = flat_map sbytes (skipn a l).
+Proof.
+  unfold pre_len. revert a. induction l as [|s l IH]; intros a.
+  - rewrite firstn_nil, !skipn_nil. reflexivity.
+  - destruct a; simpl; [reflexivity|].
+    rewrite app_length. rewrite skipn_app. rewrite skipn_all2 by lia. simpl.
+    replace (length (sbytes s) + length (flat_map sbytes (firstn a l)) - length (sbytes s))
+      with (length (flat_map sbytes (firstn a l))) by lia.
+    apply IH.
+Qed.
+
+Lemma content_splice l a b mid :
+  flat_map sbytes (firstn a l ++ mid ++ skipn b l) =
+  firstn (pre_len l a) (flat_map sbytes l) ++ flat_map sbytes mid ++ skipn (pre_len l b) (flat_map sbytes l).
+Proof. rewrite !flat_map_app, firstn_content, skipn_content. reflexivity. Qed.
+
+Lemma my_skipn_skipn {A} a b (l : list A) : skipn a (skipn b l) = skipn (b + a) l.
+Proof.
+  revert l. induction b as [|b IH]; intros l; simpl; [reflexivity|].
+  destruct l; [rewrite !skipn_nil; reflexivity|]. apply IH.
+Qed.
+
+(* overwrite expressed on a window [pa, pb) of the content *)
+Lemma overwrite_window (c : list byte) pa pb so d :
+  pa <= pb -> pb <= length c -> so + length d <= pb - pa ->
+  overwrite c (pa + so) d =
+  firstn pa c ++ overwrite (firstn (pb - pa) (skipn pa c)) so d ++ skipn pb c.
+Proof.
+  intros H1 H2 H3.
+  rewrite <- (firstn_skipn pa c) at 1.
+  set (pre := firstn pa c). set (rest := skipn pa c).
+  assert (Hpre : length pre = pa) by (unfold pre; rewrite firstn_length; lia).
+  assert (Hrest : length rest = length c - pa) by (unfold rest; rewrite skipn_length; lia).
+  rewrite <- (firstn_skipn (pb - pa) rest) at 1.
+  set (mid := firstn (pb - pa) rest). set (post := skipn (pb - pa) rest).
+  assert (Hmid : length mid = pb - pa) by (unfold mid; rewrite firstn_length; lia).
+  assert (Hpost : post = skipn pb c).
+  { unfold post, rest. rewrite my_skipn_skipn. f_equal. lia. }
+  rewrite <- Hpost.
+  unfold overwrite.
+  rewrite <- Hpre at 1.
+  rewrite firstn_app. rewrite firstn_all2 by lia.
+  replace (length pre + so - length pre) with so by lia.
+  rewrite firstn_app. replace (so - length mid) with 0 by lia. simpl firstn at 3. rewrite app_nil_r.
+  rewrite <- !app_assoc. f_equal. f_equal. f_equal.
+  replace (pa + so + length d) with (length pre + (so + length d)) by lia.
+  rewrite skipn_app. rewrite skipn_all2 by lia. simpl.
+  replace (length pre + (so + length d) - length pre) with (so + length d) by lia.
+  rewrite skipn_app. replace (so + length d - length mid) with 0 by lia. simpl. reflexivity.
+Qed.
+
+Lemma overwrite_at_end (c d : list byte) : overwrite c (length c) d = c ++ d.
+Proof.
+  unfold overwrite. rewrite firstn_all. rewrite skipn_all2 by lia. rewrite app_nil_r. reflexivity.
+Qed.
+
+Lemma firstn_app_exact {A} n (l1 l2 : list A) : length l1 = n -> firstn n (l1 ++ l2) = l1.
+Proof. intros <-. rewrite firstn_app. rewrite firstn_all. replace (length l1 - length l1) with 0 by lia. simpl. apply app_nil_r. Qed.
+Lemma skipn_app_exact {A} n (l1 l2 : list A) : length l1 = n -> skipn n (l1 ++ l2) = l2.
+Proof. intros <-. rewrite skipn_app. rewrite skipn_all. replace (length l1 - length l1) with 0 by lia. reflexivity. Qed.
+
+Lemma nthseg_in l i : i < length l -> In (nthseg l i) l.
+Proof. intros; unfold nthseg; apply nth_In; auto. Qed.
+
+Lemma Forall_firstn {A} (P : A -> Prop) n l : Forall P l -> Forall P (firstn n l).
+Proof. rewrite !Forall_forall. intros H x Hx. apply H. rewrite <- (firstn_skipn n l). apply in_or_app; auto. Qed.
+Lemma Forall_skipn {A} (P : A -> Prop) n l : Forall P l -> Forall P (skipn n l).
+Proof. rewrite !Forall_forall. intros H x Hx. apply H. rewrite <- (firstn_skipn n l). apply in_or_app; auto. Qed.
+
+Lemma pre_len_S l i : i < length l -> pre_len l (S i) = pre_len l i + slen (nthseg l i).
+Proof.
+  unfold pre_len, slen. revert i. induction l as [|s l IH]; intros i Hi; simpl in *; [lia|].
+  destruct i; simpl.
+  - rewrite app_length. simpl. unfold nthseg. simpl. lia.
+  - rewrite !app_length. rewrite (IH i) by lia. unfold nthseg. simpl. lia.
+Qed.
+
+
+Section Branches.
 Variable mb : nat.
 Hypothesis mb_pos : 1 <= mb.
 
-Lemma write_step_inplace fn p data :
-  WF fn -> valid fn p -> data <> [] ->
-  idx p < length (segs fn) -> is_mem (nthseg (segs fn) (idx p)) = true ->
-  exists fn' p' n, write_step mb fn p data = (fn', p', n) /\
+Definition step_ok (fn : fnode) (p : ptr) (data : list byte) (r : fnode * ptr * nat) : Prop :=
+  let '(fn', p', n) := r in
   1 <= n <= length data /\
   content fn' = overwrite (content fn) (off p) (firstn n data) /\
-  WF fn' /\ off p' = off p + n /\ size fn' = size fn.
+  WF fn' /\ off p' = off p + n.
+
+Lemma ptr_after_off l p i so n rp : off (ptr_after l p i so n rp) = off p + n.
+Proof. unfold ptr_after. destruct (slen (nthseg l i) =? so); reflexivity. Qed.
+
+Lemma cando_facts (data : list byte) k :
+  data <> [] -> 1 <= k ->
+  let c := firstn k data in 1 <= length c /\ length c <= length data /\ firstn (length c) data = c.
 Proof.
-  intros [Hsz Hpos] [Hoff Hv] Hd Hi Hm.
-  destruct Hv as [[_ Hso]|[Hx _]]; [|lia].
-  unfold write_step.
-  assert (E1 : (idx p <? length (segs fn)) = true) by (apply Nat.ltb_lt; auto).
-  rewrite E1, Hm. cbn [negb]. rewrite andb_false_r.
+  intros Hd Hk c. unfold c. rewrite firstn_length.
+  split; [|split].
+  - destruct data; [congruence|]. cbn [length]. lia.
+  - lia.
+  - apply firstn_min_length.
+Qed.
+
+Lemma firstn_firstn_data (data : list byte) a b :
+  firstn (length (firstn a (firstn b data))) data = firstn a (firstn b data).
+Proof. rewrite firstn_firstn. rewrite firstn_length. apply firstn_min_length. Qed.
+
+(* ---- in-place write into a memSegment ---- *)
+Lemma ws_inplace_ok fn p data :
+  WF fn -> valid fn p -> data <> [] ->
+  idx p < length (segs fn) -> soff p < slen (nthseg (segs fn) (idx p)) ->
+  step_ok fn p data (ws_inplace fn p (firstn mb data)).
+Proof.
+  intros [Hsz Hpos] [Hoff _] Hd Hi Hso.
+  unfold ws_inplace, step_ok. cbv zeta.
   set (s := nthseg (segs fn) (idx p)) in *.
   set (cando := firstn (slen s - soff p) (firstn mb data)).
   assert (Hc1 : 1 <= length cando).
-  { unfold cando. rewrite !firstn_length. destruct data; [congruence|]. cbn [length]. clear - Hso mb_pos. unfold slen in *. lia. }
+  { unfold cando. rewrite !firstn_length. destruct data; [congruence|]. cbn [length]. lia. }
   assert (Hc2 : length cando <= slen s - soff p) by (unfold cando; rewrite firstn_length; lia).
-  assert (Hc3 : firstn (length cando) data = cando).
-  { unfold cando. rewrite !firstn_firstn. rewrite firstn_length. apply firstn_min_length. }
-  assert (Hlen : length cando <= length data).
-  { rewrite <- Hc3 at 1. rewrite firstn_length. lia. }
+  assert (Hc3 : firstn (length cando) data = cando) by apply firstn_firstn_data.
+  assert (Hlen : length cando <= length data) by (rewrite <- Hc3 at 1; rewrite firstn_length; lia).
   set (l' := set_nth (segs fn) (idx p) (Mem (mem_write (sbytes s) (soff p) cando))).
   assert (Hcont : flat_map sbytes l' = overwrite (content fn) (off p) cando).
   { unfold l'. rewrite set_nth_content by auto. cbn [sbytes].
     unfold content. rewrite (content_split (segs fn) (idx p)) by auto.
     rewrite Hoff. unfold pre_len. fold s.
     rewrite overwrite_within; [reflexivity|unfold slen in *; lia]. }
-  assert (Hwf : WF {| segs := l'; size := size fn; repacked := repacked fn |}).
-  { split; cbn [segs size content].
-    - unfold content. cbn [segs]. rewrite Hcont. unfold overwrite.
-      rewrite !app_length, firstn_length, skipn_length. rewrite Hsz.
-      assert (off p + length cando <= length (content fn)).
-      { unfold content. rewrite (content_split (segs fn) (idx p)) by auto.
-        rewrite !app_length. rewrite Hoff. unfold pre_len. fold s. unfold slen in *. lia. }
-      lia.
-    - unfold l'. apply Forall_set_nth; auto.
-      unfold slen. cbn [sbytes]. rewrite mem_write_length; [|unfold slen in *; lia].
-      rewrite Forall_forall in Hpos. apply (Hpos s). unfold s, nthseg. apply nth_In. auto. }
-  destruct (slen (nthseg l' (idx p)) =? soff p + length cando);
-    eexists _, _, _; (split; [reflexivity|]); cbn [off size];
-    (split; [lia|]); rewrite Hc3; (split; [exact Hcont|]); (split; [exact Hwf|]); split; lia.
+  rewrite ptr_after_off. split; [lia|]. rewrite Hc3. split; [exact Hcont|]. split; [|reflexivity].
+  split; cbn [segs size].
+  - unfold content; cbn [segs]. rewrite Hcont. unfold overwrite.
+    rewrite !app_length, firstn_length. pose proof (skipn_length (off p + length cando) (content fn)).
+    assert (off p + length cando <= length (content fn)).
+    { unfold content. rewrite (content_split (segs fn) (idx p)) by auto.
+      rewrite !app_length. rewrite Hoff. unfold pre_len. fold s. unfold slen in *. lia. }
+    lia.
+  - unfold l'. apply Forall_set_nth; auto.
+    unfold slen. cbn [sbytes]. rewrite mem_write_length; [|unfold slen in *; lia].
+    rewrite Forall_forall in Hpos. apply (Hpos s). apply nthseg_in; auto.
 Qed.
-End Max.
+
+(* ---- insert a new memSegment, ptr at EOF ---- *)
+Lemma ws_insert_eof_ok fn p data :
+  WF fn -> valid fn p -> data <> [] -> idx p = length (segs fn) ->
+  step_ok fn p data (ws_insert fn p (firstn mb data)).
+Proof.
+  intros [Hsz Hpos] [Hoff Hv] Hd Hi.
+  assert (Hso : soff p = 0) by (destruct Hv as [[A _]|[_ B]]; [lia|exact B]).
+  unfold ws_insert, adjust_cur, step_ok. cbv zeta.
+  assert (E2 : (idx p =? length (segs fn)) = true) by (apply Nat.eqb_eq; exact Hi).
+  rewrite E2.
+  destruct (cando_facts data mb Hd mb_pos) as (Hc1 & Hc2 & Hc3).
+  set (cando := firstn mb data) in *.
+  set (l2 := firstn (idx p) (segs fn) ++ Mem cando :: skipn (idx p) (segs fn)).
+  assert (Hl2 : l2 = segs fn ++ [Mem cando]).
+  { unfold l2. rewrite Hi. rewrite firstn_all. rewrite skipn_all. reflexivity. }
+  assert (Hoffc : off p = length (content fn)).
+  { rewrite Hoff, Hso. unfold content. rewrite pre_len_all by lia. lia. }
+  rewrite ptr_after_off. split; [lia|]. rewrite Hc3.
+  split; [|split; [|reflexivity]].
+  - unfold content at 1; cbn [segs]. rewrite Hl2, flat_map_app. cbn [flat_map sbytes]. rewrite app_nil_r.
+    rewrite Hoffc. rewrite overwrite_at_end. reflexivity.
+  - split; cbn [segs size].
+    + unfold content; cbn [segs]. rewrite Hl2, flat_map_app, app_length. cbn [flat_map sbytes]. rewrite app_nil_r.
+      rewrite Hsz. reflexivity.
+    + rewrite Hl2. apply Forall_app; split; [exact Hpos|]. constructor; [|constructor]. unfold slen; cbn [sbytes]. lia.
+Qed.
+
+Lemma window_is_seg l i :
+  i < length l ->
+  firstn (pre_len l (S i) - pre_len l i) (skipn (pre_len l i) (flat_map sbytes l)) = sbytes (nthseg l i).
+Proof.
+  intros Hi. rewrite pre_len_S by auto.
+  replace (pre_len l i + slen (nthseg l i) - pre_len l i) with (slen (nthseg l i)) by lia.
+  rewrite (content_split l i Hi) at 1. unfold pre_len.
+  rewrite skipn_app. rewrite skipn_all. replace (length (flat_map sbytes (firstn i l)) - length (flat_map sbytes (firstn i l))) with 0 by lia.
+  cbn [skipn app]. rewrite firstn_app. unfold slen. rewrite firstn_all.
+  replace (length (sbytes (nthseg l i)) - length (sbytes (nthseg l i))) with 0 by lia. cbn [firstn]. apply app_nil_r.
+Qed.
+
+Lemma overwrite_prefix (W d : list byte) : length d <= length W -> overwrite W 0 d = d ++ skipn (length d) W.
+Proof. intros H. unfold overwrite. cbn [firstn app Nat.add]. reflexivity. Qed.
+
+Lemma pre_len_bound l i : i <= length l -> pre_len l i <= length (flat_map sbytes l).
+Proof. intros H. rewrite <- (pre_len_all l (length l)) by lia. apply pre_len_le; lia. Qed.
+
+(* ---- insert a new memSegment in the middle: cur is a stored segment, ptr at its start ---- *)
+Lemma ws_insert_mid_ok fn p data :
+  WF fn -> valid fn p -> data <> [] ->
+  idx p < length (segs fn) -> soff p = 0 ->
+  step_ok fn p data (ws_insert fn p (firstn mb data)).
+Proof.
+  intros [Hsz Hpos] [Hoff _] Hd Hi Hso.
+  unfold ws_insert, adjust_cur, step_ok. cbv zeta.
+  assert (E2 : (idx p =? length (segs fn)) = false) by (apply Nat.eqb_neq; lia).
+  rewrite E2.
+  destruct (cando_facts data mb Hd mb_pos) as (Hc1 & Hc2 & Hc3).
+  set (cando0 := firstn mb data) in *.
+  set (l := segs fn) in *. set (cur := idx p) in *.
+  set (s := nthseg l cur).
+  assert (Hs : 0 < slen s).
+  { rewrite Forall_forall in Hpos. apply Hpos. apply nthseg_in; auto. }
+  assert (Hoff' : off p = pre_len l cur + 0) by (rewrite Hoff, Hso; reflexivity).
+  assert (Hpa : pre_len l cur <= pre_len l (S cur)) by (apply pre_len_le; lia).
+  assert (Hpb : pre_len l (S cur) <= length (content fn)) by (apply pre_len_bound; lia).
+  assert (HW := window_is_seg l cur Hi). fold s in HW.
+  assert (HS := pre_len_S l cur Hi). fold s in HS.
+  destruct (slen s <=? length cando0) eqn:E3.
+  - (* cur disappears entirely *)
+    apply Nat.leb_le in E3.
+    set (cando := firstn (slen s) cando0).
+    assert (Hlc : length cando = slen s) by (unfold cando; rewrite firstn_length; lia).
+    assert (Hc3' : firstn (length cando) data = cando) by (unfold cando, cando0; apply firstn_firstn_data).
+    assert (Hf : firstn cur (firstn cur l ++ skipn (S cur) l) = firstn cur l)
+      by (apply firstn_app_exact; rewrite firstn_length; lia).
+    assert (Hk : skipn cur (firstn cur l ++ skipn (S cur) l) = skipn (S cur) l)
+      by (apply skipn_app_exact; rewrite firstn_length; lia).
+    rewrite Hf, Hk. rewrite ptr_after_off.
+    split; [lia|]. rewrite Hc3'.
+    assert (Hcont : flat_map sbytes (firstn cur l ++ Mem cando :: skipn (S cur) l)
+                    = overwrite (content fn) (off p) cando).
+    { change (Mem cando :: skipn (S cur) l) with ([Mem cando] ++ skipn (S cur) l).
+      rewrite content_splice. cbn [flat_map sbytes]. rewrite app_nil_r.
+      rewrite Hoff'. rewrite (overwrite_window (content fn) (pre_len l cur) (pre_len l (S cur))); try lia.
+      unfold content. fold l. rewrite HW. rewrite overwrite_prefix by (unfold slen in *; lia).
+      assert (Hge : length (sbytes s) <= length cando) by (rewrite Hlc; unfold slen; apply Nat.le_refl).
+      rewrite (skipn_all2 (sbytes s) Hge). rewrite app_nil_r. reflexivity. }
+    split; [exact Hcont|]. split; [|reflexivity].
+    split; cbn [segs size].
+    + unfold content at 1; cbn [segs]. rewrite Hcont. unfold overwrite.
+      rewrite !app_length, firstn_length. pose proof (skipn_length (off p + length cando) (content fn)). lia.
+    + apply Forall_app; split; [apply Forall_firstn; exact Hpos|].
+      constructor; [unfold slen; cbn [sbytes]; lia|apply Forall_skipn; exact Hpos].
+  - (* cur is shortened from the left *)
+    apply Nat.leb_gt in E3.
+    set (s' := slice s (length cando0) None).
+    assert (Hs' : sbytes s' = skipn (length cando0) (sbytes s)) by (unfold s', slice; destruct s; reflexivity).
+    assert (Hf : firstn cur (set_nth l cur s') = firstn cur l)
+      by (unfold set_nth; apply firstn_app_exact; rewrite firstn_length; lia).
+    assert (Hk : skipn cur (set_nth l cur s') = s' :: skipn (S cur) l)
+      by (unfold set_nth; apply skipn_app_exact; rewrite firstn_length; lia).
+    rewrite Hf, Hk. rewrite ptr_after_off.
+    split; [lia|]. rewrite Hc3.
+    assert (Hcont : flat_map sbytes (firstn cur l ++ Mem cando0 :: s' :: skipn (S cur) l)
+                    = overwrite (content fn) (off p) cando0).
+    { change (Mem cando0 :: s' :: skipn (S cur) l) with ([Mem cando0; s'] ++ skipn (S cur) l).
+      rewrite content_splice. cbn [flat_map sbytes]. rewrite app_nil_r.
+      rewrite Hoff'. rewrite (overwrite_window (content fn) (pre_len l cur) (pre_len l (S cur))); try lia.
+      unfold content. fold l. rewrite HW. rewrite overwrite_prefix by (unfold slen in *; lia).
+      rewrite Hs'. reflexivity. }
+    split; [exact Hcont|]. split; [|reflexivity].
+    split; cbn [segs size].
+    + unfold content at 1; cbn [segs]. rewrite Hcont. unfold overwrite.
+      rewrite !app_length, firstn_length. pose proof (skipn_length (off p + length cando0) (content fn)). lia.
+    + apply Forall_app; split; [apply Forall_firstn; exact Hpos|].
+      constructor; [unfold slen; cbn [sbytes]; lia|].
+      constructor; [|apply Forall_skipn; exact Hpos].
+      unfold slen. rewrite Hs'. pose proof (skipn_length (length cando0) (sbytes s)). unfold slen in *. lia.
+Qed.
+End Branches.
